@@ -85,6 +85,7 @@ type c11Report struct {
 	GOMAXPROCS  int                `json:"gomaxprocs"`
 	Panics      []string           `json:"panics"`
 	Stalls      []string           `json:"stalls"`
+	OrderFails  []string           `json:"order_failures"`
 }
 
 var c11Words = []string{"list", "files", "directory", "find", "search", "text", "compress", "archive", "extract", "copy",
@@ -366,6 +367,38 @@ func c11stress(args []string) int {
 	if len(live) == 0 {
 		fmt.Fprintln(os.Stderr, "no usable cases")
 		return 2
+	}
+
+	// ---------------- Phase A0: an operation that has returned has taken effect (real-time order), on ONE goroutine.
+	// A cached search stores its answer before it returns; an invalidation that is called afterwards therefore leaves the
+	// cache empty, and it stays empty until the next search.  A store that is handed to a background goroutine (wave 7,
+	// C11-A) lands after the invalidation that followed it: no sequential ordering of "search; invalidate; statistics"
+	// that respects the order in which the calls returned shows a non-empty cache.
+	{
+		seq := database.NewCachedDatabase(db)
+		tried := 0
+		for _, c := range live {
+			if len(c.exp) == 0 || tried >= 150 {
+				continue
+			}
+			tried++
+			seq.SearchWithOptionsAndCache(c.Query, c.Opts)
+			seq.InvalidateCache()
+			bad := -1
+			for k := 0; k < 40 && bad < 0; k++ { // ~2 ms
+				if sz := seq.GetCacheStats()["search"].Size; sz != 0 {
+					bad = sz
+				}
+				time.Sleep(50 * time.Microsecond)
+			}
+			rep.Calls["order:search-invalidate-stats"]++
+			if bad >= 0 {
+				mu0 := fmt.Sprintf("after SearchWithOptionsAndCache(%q) returned and InvalidateCache() returned, with no other goroutine using the cache, GetCacheStats reports %d cached entries: the search's store took effect after the call had returned", c.Query, bad)
+				if len(rep.OrderFails) < 5 {
+					rep.OrderFails = append(rep.OrderFails, mu0)
+				}
+			}
+		}
 	}
 
 	cdb := database.NewCachedDatabase(db)
@@ -924,6 +957,52 @@ func c11stress(args []string) int {
 		if strings.Join(lk, ",") != strings.Join(mk, ",") {
 			fail(fmt.Sprintf("after the run the recency list holds [%s] but the key map holds [%s]", strings.Join(lk, ","), strings.Join(mk, ",")))
 		}
+	}
+
+	// ---------------- Phase B2: a sweep that overlaps readers still sweeps.  One goroutine stores an entry that is expired at
+	// once (lifetime 1 ns) and then calls CleanupExpired, while others only read (Size, Stats, Get of an absent key).  In every
+	// sequential ordering the sweep comes after the store it follows in program order and finds exactly that entry; a sweep
+	// that gives up when it cannot take the lock at once (wave 7, C11-B: TryLock) returns 0 and leaves the entry behind.
+	{
+		c := cache.NewLRUCache(64, time.Nanosecond)
+		var stop atomic.Bool
+		var wg sync.WaitGroup
+		for g := 0; g < 6; g++ {
+			wg.Add(1)
+			go func() {
+				defer wg.Done()
+				defer notePanic("lru reader")
+				for !stop.Load() {
+					c.Size()
+					c.Stats()
+					c.Get("absent")
+					c11Progress.Add(1)
+				}
+			}()
+		}
+		rounds := 400
+		if thorough {
+			rounds = 4000
+		}
+		skipped := 0
+		for i := 0; i < rounds; i++ {
+			c.Put("k"+Itoa(i), i)
+			time.Sleep(2 * time.Microsecond)
+			if n := c.CleanupExpired(); n != 1 {
+				skipped++
+				mu.Lock()
+				if len(rep.LruFails) < 8 {
+					rep.LruFails = append(rep.LruFails, fmt.Sprintf("cap=64 ttl=1ns: Put(k%d) returned, then CleanupExpired() returned %d while other goroutines were only reading; the expired entry was not swept (size now %d)", i, n, c.Size()))
+				}
+				mu.Unlock()
+				c.Clear()
+			}
+			c11Progress.Add(1)
+		}
+		stop.Store(true)
+		wg.Wait()
+		rep.Lru["sweeps_under_readers"] += int64(rounds)
+		rep.Lru["sweeps_that_skipped"] += int64(skipped)
 	}
 
 	// ---------------- Phase C: recorded histories
